@@ -64,6 +64,10 @@ pub struct Scenario {
     /// children whose destructor panics once
     #[serde(default)]
     pub drop_panic: Vec<u32>,
+    /// at the very end the stored child wakers are not dropped but consumed by `wake()` (by value): the last of them
+    /// releases the shared block from inside a wake call
+    #[serde(default)]
+    pub final_wake: bool,
     #[serde(default)]
     pub id: String,
 }
@@ -91,6 +95,7 @@ pub enum Subject {
 }
 
 pub struct Runner {
+    pub final_wake: bool,
     pub subj: Subject,
     pub kind: String,
     pub received: Vec<Token>,
@@ -132,7 +137,9 @@ impl Runner {
             let _c = InCrate::enter();
             match kind.as_str() {
                 "fub" => {
-                    if ctor == "from_iter" {
+                    if ctor == "from_iter_lazy" {
+                        Subject::Fub(init.iter().filter(|_| true).map(|c| SFut::new(*c)).collect())
+                    } else if ctor == "from_iter" {
                         Subject::Fub(init.iter().map(|c| SFut::new(*c)).collect())
                     } else {
                         Subject::Fub(FuturesUnorderedBounded::new(cap))
@@ -186,6 +193,9 @@ impl Runner {
                     cap,
                     fe_make as FeFn,
                 ))),
+                // (an iterator without an exact size hint for the "lazy" constructor)
+                "ja" if ctor == "from_iter_lazy" => Subject::Ja(join_all(init.iter().filter(|_| true).map(|c| SFut::new(*c)))),
+                "tja" if ctor == "from_iter_lazy" => Subject::Tja(try_join_all(init.iter().filter(|_| true).map(|c| STry::new(*c)))),
                 "ja" => Subject::Ja(join_all(init.iter().map(|c| SFut::new(*c)))),
                 "tja" => Subject::Tja(try_join_all(init.iter().map(|c| STry::new(*c)))),
                 k => panic!("unknown kind {k}"),
@@ -201,7 +211,7 @@ impl Runner {
                         c
                     ));
                 }
-                Some(Runner { subj, kind, received: vec![], yielded: 0, finished: false })
+                Some(Runner { final_wake: sc.final_wake, subj, kind, received: vec![], yielded: 0, finished: false })
             }
             Err(_) => {
                 ev(r#"{"e":"new","res":"panic","al":0}"#.to_string());
@@ -612,8 +622,21 @@ impl Runner {
         });
         {
             let _c = InCrate::enter();
-            drop(stash);
             drop(pool);
+        }
+        if self.final_wake {
+            for (c, wk) in stash {
+                let key = with(|w| w.key_of(wk.data() as usize));
+                ev(format!(r#"{{"e":"wake_b","c":{},"key":{},"t":{}}}"#, c, key, crate::gate::me()));
+                {
+                    let _c = InCrate::enter();
+                    wk.wake();
+                }
+                ev(format!(r#"{{"e":"wake_e","t":{}}}"#, crate::gate::me()));
+            }
+        } else {
+            let _c = InCrate::enter();
+            drop(stash);
         }
         drop(up);
         take_allocs();
